@@ -216,10 +216,19 @@ def T_qg(rng, v=0):
     from PEPit import PEP
     from PEPit.functions import ConvexQGFunction
     L = rng.choice([1.0, 2.0])
-    order = ['first', 'last', 'auto'][v % 3]
+    order = ['first', 'last', 'auto', 'auto_qg'][v % 4]
     gamma = 1 / L
     p = PEP()
     f = p.declare_function(ConvexQGFunction, L=L)
+    if order == 'auto_qg':
+        # ConvexQGFunction itself without a declared minimiser: the class records one while it generates its constraints
+        x0 = p.set_initial_point()
+        g0, f0 = f.oracle(x0)
+        p.set_initial_condition(g0 ** 2 <= 1)
+        x1 = x0 - gamma * g0
+        f1 = f(x1)
+        p.set_performance_metric(f0 - f1)
+        return p, dict(points=[x0, x1], exprs=[f0 - f1], funcs=[f], order=order)
     if order == 'auto':
         # no stationary point declared: the class creates one (new leaves) while class constraints are generated at solve time
         from PEPit.functions import RsiEbFunction
